@@ -195,6 +195,61 @@ func handWrittenComponents(c *Ctx) {
 			nonClearing = append(nonClearing, strings.TrimPrefix(b.key, modPath))
 		}
 	}
+	// combinators: a function that builds a Component out of Component arguments never hands an argument back
+	// unwrapped (the wrapper is where the slot is cleared)
+	for _, rel := range []string{"."} {
+		p := c.pkg(rel)
+		info := p.TypesInfo
+		compT, _ := p.Types.Scope().Lookup("Component").(*types.TypeName)
+		if compT == nil {
+			continue
+		}
+		isComp := func(t types.Type) bool {
+			if t == nil {
+				return false
+			}
+			if types.Identical(t, compT.Type()) {
+				return true
+			}
+			if sl, ok := t.(*types.Slice); ok {
+				return types.Identical(sl.Elem(), compT.Type())
+			}
+			return false
+		}
+		for _, fd := range allFuncDecls(p) {
+			if fd.Type.Results == nil || len(fd.Type.Results.List) != 1 || !isComp(info.TypeOf(fd.Type.Results.List[0].Type)) {
+				continue
+			}
+			params := map[types.Object]bool{}
+			for _, prm := range fd.Type.Params.List {
+				if isComp(info.TypeOf(prm.Type)) {
+					for _, nm := range prm.Names {
+						params[info.Defs[nm]] = true
+					}
+				}
+			}
+			if len(params) == 0 {
+				continue
+			}
+			bad := ""
+			directNodes(fd.Body, func(n ast.Node) bool {
+				ret, ok := n.(*ast.ReturnStmt)
+				if !ok || len(ret.Results) != 1 {
+					return true
+				}
+				r := ast.Unparen(ret.Results[0])
+				if ix, ok := r.(*ast.IndexExpr); ok {
+					r = ix.X
+				}
+				if id, ok := r.(*ast.Ident); ok && params[info.ObjectOf(id)] {
+					bad = types.ExprString(ret.Results[0]) + " at " + c.pos(ret.Pos())
+				}
+				return true
+			})
+			c.check(bad == "", "C13.R3", funcKey(p, fd)+"|never-returns-argument-unwrapped", c.pos(fd.Pos()), "always returns its own wrapper",
+				fmt.Sprintf("%s returns one of its component arguments unwrapped (%s): the wrapper that clears the children slot is skipped, so a block passed to the combinator reaches that component", fd.Name.Name, bad))
+		}
+	}
 	c.floor("C13.R3", 3)
 	// R4: call-site
 	g := c.gem()
